@@ -28,6 +28,7 @@ type c05GenCfg struct {
 	keyStyles  []string // admissible key styles ("" = field name)
 	conf       bool     // conf rule: restrict to what the conf sentence of the statement covers
 	noCompiled bool     // no compiled struct types (their tags and keys are fixed)
+	collHeavy  bool     // more slice and map fields (hand-built map documents: the element routes are the type-sensitive ones)
 	maxDepth   int
 }
 
@@ -145,6 +146,31 @@ func c05GenFields(rt *rapid.T, cfg *c05GenCfg, depth, maxN int, prefix string) [
 		}
 		fs[i] = c05GenField(rt, cfg, depth, prefix, i)
 	}
+	if !wide && len(fs) >= 2 && rapid.IntRange(0, 9).Draw(rt, "optdep") == 0 {
+		// optional=<sibling key> / optional=!<sibling key>: optional depending on another field
+		i := rapid.IntRange(0, len(fs)-1).Draw(rt, "optdepfield")
+		if rapid.IntRange(0, 2).Draw(rt, "optdepconstrained") != 0 {
+			// prefer a field that declares range= / options=
+			for k := range fs {
+				if fs[(i+k)%len(fs)].Rng != nil || len(fs[(i+k)%len(fs)].Opts) > 0 {
+					i = (i + k) % len(fs)
+					break
+				}
+			}
+		}
+		j := rapid.IntRange(0, len(fs)-2).Draw(rt, "optdepon")
+		if j >= i {
+			j++
+		}
+		a, b := &fs[i], &fs[j]
+		if a.Tag == cfg.tag && b.Tag == cfg.tag && !a.Anon && !b.Anon && !a.Env && !a.Inh && a.FK == "" && a.T.K != "text" {
+			a.Opt = true
+			a.OD = b.key(j)
+			if rapid.IntRange(0, 2).Draw(rt, "optdepnot") == 0 {
+				a.OD = "!" + a.OD
+			}
+		}
+	}
 	if depth == 1 && prefix == "" && maxN >= 6 && c05Rare(rt, "deepchain", 80) {
 		// deep nesting: a chain of 6..14 nested structs, scalars at every level
 		d := rapid.IntRange(6, 10).Draw(rt, "chaindepth") // (deeper is only slower: the valuer chain is rebuilt per field, cost grows steeply with depth)
@@ -186,6 +212,9 @@ func c05GenField(rt *rapid.T, cfg *c05GenCfg, depth int, prefix string, idx int)
 	}
 	names := []string{"scalar", "pscalar", "slice", "map", "struct", "pstruct", "embedded"}
 	weights := []int{55, 8, 13, 8, 9, 3, 4}
+	if cfg.collHeavy {
+		weights = []int{36, 6, 26, 16, 9, 3, 4}
+	}
 	if depth >= cfg.maxDepth {
 		weights[4], weights[5], weights[6] = 0, 0, 0
 	}
@@ -198,8 +227,10 @@ func c05GenField(rt *rapid.T, cfg *c05GenCfg, depth int, prefix string, idx int)
 		f.T = c05Typ{K: c05GenScalarKind(rt, true), P: true, D: c05GenDefined(rt)}
 	case "slice":
 		f.T = c05Typ{K: "slice", E: c05GenElem(rt, cfg, depth, 1), D: c05GenDefined(rt)}
+		f.T.P = rapid.IntRange(0, 13).Draw(rt, "ptrcoll") == 6 // *[]T
 	case "map":
 		f.T = c05Typ{K: "map", E: c05GenElem(rt, cfg, depth, 1), D: c05GenDefined(rt), DK: rapid.IntRange(0, 15).Draw(rt, "definedkey") == 7}
+		f.T.P = rapid.IntRange(0, 9).Draw(rt, "ptrcoll") == 6 // *map[string]T
 	case "struct", "pstruct":
 		if compiled && rapid.IntRange(0, 4).Draw(rt, "compiled") == 2 {
 			_, desc := c05Compiled("addr", cfg.tag)
@@ -380,9 +411,10 @@ func c05GenOptionsBase(rt *rapid.T, f *c05Fld) {
 	case "string":
 		if rapid.IntRange(0, 3).Draw(rt, "hasopts") == 0 {
 			f.Opts = c05Pick(rt, "stropts", [][]string{{"x", "y"}, {"dev", "test", "prod"}, {"A"}, {"on", "off", "1"}})
+			f.OB = rapid.IntRange(0, 3).Draw(rt, "optsbracket") == 0
 		}
 		if wantDef {
-			d := c05Pick(rt, "strdef", []string{"hello", "x y", "v1.2-rc_3", "0"})
+			d := c05Pick(rt, "strdef", []string{"hello", "x y", "v1.2-rc_3", "0", "p,q", ",a,,b"})
 			if len(f.Opts) > 0 {
 				d = c05Pick(rt, "strdefopt", f.Opts)
 			}
@@ -412,6 +444,7 @@ func c05GenOptionsBase(rt *rapid.T, f *c05Fld) {
 			f.Rng = c05GenRange(rt, lo, hi, isF)
 		case "options":
 			f.Opts = c05GenNumOpts(rt, lo, hi, isF)
+			f.OB = rapid.IntRange(0, 3).Draw(rt, "optsbracket") == 0
 		case "both":
 			f.Opts = c05GenNumOpts(rt, lo, hi, isF)
 			// a range that contains every option
@@ -1214,7 +1247,8 @@ type c05Case struct {
 	S  []c05Fld   `json:"s"`
 	D  c05JV      `json:"d"`
 	EP string     `json:"ep,omitempty"` // entry point: "" = UnmarshalJsonBytes, "key" = UnmarshalKey(map), "reader", "map", "opts1/2", "faultjson/faultyaml"
-	FP int        `json:"fp,omitempty"` // fault entry points: the reader fails after FP/1000 of the document
+	FP int        `json:"fp,omitempty"` // fault entry points: the reader fails after FP/1000 of the document; native: seed of the value types
+	NM int        `json:"nm,omitempty"` // native: 0 = value types drawn without looking at the struct, 1 = as a caller who knows the struct writes them
 	Y  int        `json:"y,omitempty"`  // YAML style
 }
 
@@ -1240,6 +1274,13 @@ func c05GenWarmups(rt *rapid.T) []c05Warm {
 
 func c05GenCase(rt *rapid.T) c05Case {
 	ep := c05W(rt, "ep", []string{"", "key", "reader", "map", "opts1", "opts2", "faultjson", "faultyaml", "native", "custom"}, []int{38, 10, 6, 7, 3, 3, 3, 2, 14, 14})
+	return c05GenCaseEP(rt, ep)
+}
+
+// c05GenNativeCase: rule "native" — hand-built map documents only (entry point "native").
+func c05GenNativeCase(rt *rapid.T) c05Case { return c05GenCaseEP(rt, "native") }
+
+func c05GenCaseEP(rt *rapid.T, ep string) c05Case {
 	tag := "json"
 	if ep == "key" || ep == "native" {
 		tag = "key"
@@ -1250,7 +1291,7 @@ func c05GenCase(rt *rapid.T) c05Case {
 			Str: rapid.IntRange(0, 9).Draw(rt, "custr") < 5, Canon: c05Pick(rt, "cucanon", []string{"", "", "id", "lower", "upper"})}
 		tag = c.CU.Tag
 	}
-	cfg := &c05GenCfg{tag: tag, keyStyles: c05AllStyles, maxDepth: 3}
+	cfg := &c05GenCfg{tag: tag, keyStyles: c05AllStyles, maxDepth: 3, collHeavy: ep == "native"}
 	if c.CU != nil && c.CU.Str {
 		// string-valued sources carry scalars: flat shapes of scalars and pointers to scalars
 		n := rapid.IntRange(1, 6).Draw(rt, "nfields")
@@ -1265,7 +1306,12 @@ func c05GenCase(rt *rapid.T) c05Case {
 	} else {
 		c.S = c05GenFields(rt, cfg, 1, 6, "")
 	}
-	mode := c05W(rt, "docmode", []string{"mixed", "plain", "hostile", "focus"}, []int{25, 20, 10, 45})
+	modeW := []int{25, 20, 10, 45}
+	if ep == "native" {
+		// a value of the wrong Go type is only observable as a wrong acceptance when everything else is acceptable
+		modeW = []int{12, 15, 5, 68}
+	}
+	mode := c05W(rt, "docmode", []string{"mixed", "plain", "hostile", "focus"}, modeW)
 	g := &c05DocGen{rt: rt, plain: mode == "plain", hostile: 6, focus: mode == "focus", big: !strings.HasPrefix(ep, "fault") && c05Rare(rt, "bigcase", 100), wideKeys: true, allStr: c.CU != nil && c.CU.Str}
 	if mode == "hostile" {
 		g.hostile = 30
@@ -1275,6 +1321,9 @@ func c05GenCase(rt *rapid.T) c05Case {
 	c.W = c05GenWarmups(rt)
 	if strings.HasPrefix(ep, "fault") || ep == "native" {
 		c.FP = rapid.IntRange(0, 999).Draw(rt, "faultpos")
+	}
+	if ep == "native" && rapid.IntRange(0, 3).Draw(rt, "nativemode") != 0 {
+		c.NM = 1
 	}
 	return c
 }
